@@ -125,11 +125,14 @@ class Run:
             self.add(name, 'proved', 'write tracking on every explored path (%d registered containers)' % len(values.GLOBAL_OBJS), 0, fn, kind='frame')
             return
         what = 'module-level state written while decoding: %s' % ', '.join(sorted(writes))
-        out = native({'kind': 'history_case'}, timeout=900)
+        out = native({'kind': 'api_history_case'}, timeout=900)
+        req = {'kind': 'api_history_case'}
+        if not out.get('violates'):
+            out = native({'kind': 'history_case'}, timeout=900)
+            req = {'kind': 'history_case', 'window': out.get('window'), 'order': out.get('order')}
         if out.get('violates'):
             self.add(name, 'refuted', 'write tracking + native history search', 0, fn, what, kind='frame')
-            self.violation(name, {'request': {'kind': 'history_case', 'window': out.get('window'), 'order': out.get('order')}, 'native': out,
-                                  'solver_output': what}, True, what=out.get('what', ''))
+            self.violation(name, {'request': req, 'native': out, 'solver_output': what}, True, what=out.get('what', ''))
         else:
             self.add(name, 'unknown', 'write tracking', 0, fn, what, kind='frame')
             self.undecide(name, what + ' (no failing history found: the per-function analysis assumes state-free functions)')
